@@ -65,12 +65,12 @@ def report(rep, traces, prop):
 def main(tier, rep):
     vclock.install()
     common.import_repo()
-    traces = run(rep, tier, ["client"], PROP)
+    traces = run(rep, tier, ["client", "pooled", "hash"], PROP)
     report(rep, traces, PROP)
     rep.set("evaluations", len(traces))
     rep.set("distinct_nontrivial", len({str([(e.get("op"), e.get("k"), str(e.get("v")), e.get("exp"), e.get("nr"), e.get("cas"), e.get("d"))
                                              for e in t["ev"]]) for t in traces}))
-    rep.set("rule", "one execution per exported history (every history of length 2 over the 175-operation alphabet; "
+    rep.set("rule", "one execution per exported history (every history of length 2 over the 177-operation alphabet; "
                     "random histories of length 30/40 from TLC -simulate and from a seeded random walk whose cas tokens come from earlier gets results); all are non-trivial (at least two API calls); distinct by the call sequence")
     for t in traces[100::max(1, len(traces) // 3)][:3]:
         rep.sample({"kind": t["kind"], "calls": [(e.get("op", "tick"), e.get("k", ""), e.get("res", {}).get("t", "")) for e in t["ev"][:8]]})
